@@ -139,8 +139,14 @@ impl Check for C03 {
         let res = ex.exec(None, rt::fs::Disk::default(), move || run_sut(&c1));
         match res {
             Err(a) => {
-                rep.violation = Some(abort_to_violation(&a));
-                rep.outcome_class = "abort".into();
+                let v = abort_to_violation(&a);
+                if is_machine_overflow(&v) {
+                    rep.counters.insert("machine_overflow_skipped".into(), 1);
+                    rep.outcome_class = "overflow".into();
+                } else {
+                    rep.violation = Some(v);
+                    rep.outcome_class = "abort".into();
+                }
             }
             Ok(tables) => {
                 let zname = if case["bigint"].as_bool().unwrap() { "ZB" } else { "Z" };
